@@ -253,24 +253,38 @@ def run_seq(t):
     s, b, c, dim, rng = base_script(ty, N, nc, t['seed'])
     tu = build.ppoly_tu(*TYPES[ty])
     out = []
-    for h0 in (0, N - 1, -1, N + 5):
+    for h0 in (0, N - 1, -1, N + 5, 'batch', 'batchE'):
         s1 = D.Script()
         s1.lines = list(s.lines)
         s1.shadows = dict(s.shadows)
         ts = [s1.var('t%d' % j, round(rng.uniform(-0.5, N + 0.5), 3)) for j in range(L)]
-        s1.add('int H %d' % h0)
-        for j in range(L):
-            s1.add('pp.eval P t%d 0 p%d' % (j, j))
-            s1.add('pp.evalh P t%d H 0 q%d' % (j, j))
+        if isinstance(h0, str):
+            # one multi-sample batch call over the same arbitrary (unsorted, possibly breakpoint-exact) times: element j
+            # must be the plain evaluation of sample j whatever the earlier samples of the batch were
+            for j in range(L):
+                s1.add('pp.eval P t%d 0 p%d' % (j, j))
+            s1.add('pp.%s P 0 bq' % h0, L, *['t%d' % j for j in range(L)])
+        else:
+            s1.add('int H %d' % h0)
+            for j in range(L):
+                s1.add('pp.eval P t%d 0 p%d' % (j, j))
+                s1.add('pp.evalh P t%d H 0 q%d' % (j, j))
 
         def assume(enc):
             return [enc.var('b%d' % i) < enc.var('b%d' % (i + 1)) for i in range(N)]
         ex = P.Explorer(tu, s1, assume, max_paths=4096, timeout=t['timeout'])
         n = 0
         for (dec, g, enc0, sh) in ex.paths():
-            sc = O.Scenario(ID, '%s h0=%d path#%d' % (t['name'], h0, n), tu, s1, decisions=dec, timeout=t['timeout'], dag=g, shadow_override=sh)
+            sc = O.Scenario(ID, '%s h0=%s path#%d' % (t['name'], h0, n), tu, s1, decisions=dec, timeout=t['timeout'], dag=g, shadow_override=sh)
             n += 1
             sc.assume += assume(sc.enc)
+            if isinstance(h0, str):
+                sc.int_eq('batch length', 'bq.n', L)
+                for j in range(L):
+                    for d in range(dim):
+                        sc.uf_eq('batch element %d == plain evaluation of sample %d [%d]' % (j, j, d), 'bq.%d.%d' % (j, d), 'p%d.%d' % (j, d))
+                out.append(sc)
+                continue
             for j in range(L):
                 sb = [sh.get('b%d' % i, s1.shadows['b%d' % i]) for i in range(N + 1)]
                 i = spec_index(sh.get('t%d' % j, s1.shadows['t%d' % j]), sb, N)
@@ -292,7 +306,7 @@ def run_seq(t):
                             replay=(sc.write_replay('piece', {'kind': 'structural', 'note': 'path region spans several spec pieces', 'decisions': dec}) if r.status == 'sat' else None))
                 sc.int_eq('call %d: hint == piece index' % j, 'q%d.hint' % j, i)
             out.append(sc)
-        fin = O.Scenario(ID, '%s h0=%d (exploration)' % (t['name'], h0), tu, s1, timeout=t['timeout'], dag=D.run(tu, s1.text()))
+        fin = O.Scenario(ID, '%s h0=%s (exploration)' % (t['name'], h0), tu, s1, timeout=t['timeout'], dag=D.run(tu, s1.text()))
         if ex.complete:
             fin.check('path space fully explored', True)
         else:
